@@ -216,6 +216,7 @@ func (s *Session) prepare(spec HarnessSpec, res *HarnessResult, prep *Prepared) 
 	}
 	ex := symex.NewExec(s.Loaded.Prog, ModPrefix)
 	prep.ex = ex
+	ex.RepoDir = s.Repo
 	ex.Trace = os.Getenv("GOSMT_TRACE") != ""
 	if spec.Unwind > 0 {
 		ex.Unwind = spec.Unwind
